@@ -123,7 +123,7 @@ func (f *fresh) judge(c *vh.Ctx, label string) {
 			for v := range m {
 				only = v
 			}
-			c.Fail("fresh/"+label+"/"+slotNames[i], "the GREASE "+slotNames[i]+" value is the same on every connection",
+			fail(c, "fresh/"+label+"/"+slotNames[i], "the GREASE "+slotNames[i]+" value is the same on every connection",
 				map[string]any{"hello": label, "connections": tot, "seed": c.Seed}, fmt.Sprintf("always 0x%04x", only), "values vary across connections")
 		}
 	}
@@ -172,7 +172,7 @@ func wireOracle(c *vh.Ctx, label string, input any, w *whello) (slots [5]*uint16
 	for i := 0; i < len(es); i++ {
 		for j := i + 1; j < len(es); j++ {
 			if es[i] == es[j] {
-				c.Fail("ext-distinct/"+label, "two GREASE extensions of one ClientHello carry the same code point", input,
+				fail(c, "ext-distinct/"+label, "two GREASE extensions of one ClientHello carry the same code point", input,
 					fmt.Sprintf("extensions #%d and #%d both 0x%04x", i+1, j+1, es[i]), "different code points")
 			}
 		}
@@ -180,7 +180,7 @@ func wireOracle(c *vh.Ctx, label string, input any, w *whello) (slots [5]*uint16
 	if len(gs) > 0 {
 		for _, k := range ks {
 			if k != gs[0] {
-				c.Fail("group-consistent/"+label, "GREASE group in key_share differs from the GREASE group in supported_groups", input,
+				fail(c, "group-consistent/"+label, "GREASE group in key_share differs from the GREASE group in supported_groups", input,
 					fmt.Sprintf("key_share 0x%04x", k), fmt.Sprintf("supported_groups 0x%04x", gs[0]))
 			}
 		}
@@ -201,6 +201,10 @@ func runParrotID(c *vh.Ctx, p namedID, n int) {
 	}
 	fr := newFresh()
 	var batch []slotObs
+	toCoq := n / 10 // connections whose slot values are also re-derived in Coq; the oracle sees all n
+	if toCoq < 10 {
+		toCoq = 10
+	}
 	for k := 0; k < n; k++ {
 		rec := newRec(c.Rng.Int63())
 		uc := newConn(rec, p.id)
@@ -218,14 +222,16 @@ func runParrotID(c *vh.Ctx, p namedID, n int) {
 		names := []string{"cipher_suites", "supported_groups", "key_share", "extensions", "supported_versions"}
 		for i := range want {
 			if got[i] != want[i] {
-				c.Fail("form/"+p.name+"/"+names[i], "a GREASE position of the parrot does not carry a reserved 0x?A?A value on the wire", input,
+				fail(c, "form/"+p.name+"/"+names[i], "a GREASE position of the parrot does not carry a reserved 0x?A?A value on the wire", input,
 					fmt.Sprintf("%d reserved values in %s (%s)", got[i], names[i], w.describe(i)), fmt.Sprintf("%d (the parrot's GREASE placeholders)", want[i]))
 			}
 		}
 		slots := wireOracle(c, p.name, input, w)
 		fr.add(slots)
-		batch = append(batch, slotObs{gb, slots})
-		if len(batch) == 50 || k == n-1 {
+		if k < toCoq {
+			batch = append(batch, slotObs{gb, slots})
+		}
+		if len(batch) == 20 || (k == n-1 && len(batch) > 0) {
 			c.Case("slots", slotsCoq(batch), fmt.Sprintf("%s/%x", p.name, batch[0].gb), carries,
 				map[string]any{"hello": p.name, "seed_bytes": vh.Hex(batch[0].gb), "slots": fmtSlots(batch[0].slots)})
 			batch = nil
@@ -314,42 +320,42 @@ func runCustom(c *vh.Ctx, label, kind string, spec *tls.ClientHelloSpec, fr *fre
 func posOracle(c *vh.Ctx, label string, input any, in, out *absHello) {
 	cmp := func(what string, a, b []uint16) {
 		if len(a) != len(b) {
-			c.Fail("form/"+label+"/"+what, what+": number of entries changed", input, fmt.Sprint(hex16(b)), fmt.Sprint(hex16(a)))
+			fail(c, "form/"+label+"/"+what, what+": number of entries changed", input, fmt.Sprint(hex16(b)), fmt.Sprint(hex16(a)))
 			return
 		}
 		for i := range a {
 			if reserved(a[i]) {
 				if !reserved(b[i]) {
-					c.Fail("form/"+label+"/"+what, fmt.Sprintf("%s: GREASE position %d does not carry a reserved 0x?A?A value", what, i), input,
+					fail(c, "form/"+label+"/"+what, fmt.Sprintf("%s: GREASE position %d does not carry a reserved 0x?A?A value", what, i), input,
 						fmt.Sprintf("0x%04x", b[i]), "0x?A?A")
 				}
 			} else if a[i] != b[i] {
-				c.Fail("form/"+label+"/"+what, fmt.Sprintf("%s: non-GREASE entry %d changed", what, i), input,
+				fail(c, "form/"+label+"/"+what, fmt.Sprintf("%s: non-GREASE entry %d changed", what, i), input,
 					fmt.Sprintf("0x%04x", b[i]), fmt.Sprintf("0x%04x", a[i]))
 			}
 		}
 	}
 	cmp("cipher_suites", in.suites, out.suites)
 	if len(in.exts) != len(out.exts) {
-		c.Fail("form/"+label+"/extensions", "number of extensions on the wire differs from the spec", input, out.describe(), in.describe())
+		fail(c, "form/"+label+"/extensions", "number of extensions on the wire differs from the spec", input, out.describe(), in.describe())
 		return
 	}
 	for i := range in.exts {
 		a, b := in.exts[i], out.exts[i]
 		if a.kind == kGrease {
 			if !reserved(b.id) {
-				c.Fail("form/"+label+"/extensions", fmt.Sprintf("GREASE extension at position %d has a non-reserved type", i), input, fmt.Sprintf("0x%04x", b.id), "0x?A?A")
+				fail(c, "form/"+label+"/extensions", fmt.Sprintf("GREASE extension at position %d has a non-reserved type", i), input, fmt.Sprintf("0x%04x", b.id), "0x?A?A")
 			}
 			continue
 		}
 		if a.kind != b.kind {
-			c.Fail("form/"+label+"/extensions", fmt.Sprintf("extension at position %d changed kind", i), input, out.describe(), in.describe())
+			fail(c, "form/"+label+"/extensions", fmt.Sprintf("extension at position %d changed kind", i), input, out.describe(), in.describe())
 			continue
 		}
 		switch a.kind {
 		case kOther:
 			if a.id != b.id {
-				c.Fail("form/"+label+"/extensions", fmt.Sprintf("extension at position %d changed type", i), input, out.describe(), in.describe())
+				fail(c, "form/"+label+"/extensions", fmt.Sprintf("extension at position %d changed type", i), input, out.describe(), in.describe())
 			}
 		default:
 			cmp(kindNames[a.kind], a.vals, b.vals)
@@ -372,9 +378,9 @@ func run(c *vh.Ctx) {
 	if n < 100 {
 		n = 100
 	}
-	per := n / 25 // structural (CPreset) cases per parrot and path
-	if c.Tier == "search" {
-		per = n / 10
+	per := n / 66 // structural (CPreset) cases per parrot and path
+	if per < 2 {
+		per = 2
 	}
 	c.Extra["unlisted_parrots"] = unlistedParrots()
 
@@ -465,7 +471,7 @@ func run(c *vh.Ctx) {
 
 	// runner-generated specs with GREASE at random positions (0..3 GREASE extensions, user-set GREASE values)
 	frG := newFresh()
-	for k := 0; k < 4*per+n/4; k++ {
+	for k := 0; k < 4*per+n/4; k++ { // 62 at the quick tier
 		spec := genSpec(c)
 		runCustom(c, "generated", "generated", spec, nil)
 	}
@@ -495,4 +501,16 @@ func freshOnly(c *vh.Ctx, label string, spec *tls.ClientHelloSpec, fr *fresh) {
 		panic("cannot parse ClientHello of " + label + ": " + err.Error())
 	}
 	fr.add(wireOracle(c, label, map[string]any{"hello": label, "seed_bytes": vh.Hex(rec.seedBytes())}, w))
+}
+
+// fail reports an oracle failure, at most three per key (a broken generator fails on almost every draw).
+var failCount = map[string]int{}
+
+func fail(c *vh.Ctx, key, what string, input, got, want any) {
+	failCount[key]++
+	if failCount[key] <= 3 {
+		c.Fail(key, what, input, got, want)
+	} else {
+		c.Count("further-failures/" + key)
+	}
 }
